@@ -37,7 +37,18 @@ from harness.common import paths
 
 PID = "C03"
 LEVEL = "proof"
+# C03b: compiled ghost-cell setter (sequential loops, chain) = interpreted setter, as two model definitions proved equal;
+# C18b: matrix route = stencil route on the array the setter produces
+EXTRA_PROP_FILES = ["C03b", "C03c", "C18b"]
 REQUIRED_THEOREMS = [
+    "chain_eq_foldl", "setGhostLoop_apply", "points_sound", "points_complete", "compiledLocal_eq_setGhost",
+    "compiled_setter_eq_interpreted", "compiled_setter_eq_interpreted_scalar", "readLog_compiledSetterLog",
+    "compiledSetterLog_eq_interpreted",
+    "runKernel_separate", "wrapperRoute_out_irrelevant", "wrapperRoute_aliased_eq_fresh", "fieldRoute_separate_out",
+    "fieldRoute_aliased_out_differs",
+    "cart1_matrix_eq_laplace_after_setter", "polar_matrix_eq_laplace_after_setter", "polar_disk_matrix_eq_laplace_after_setter",
+    "sph_matrix_eq_laplace_after_setter", "sph_ball_matrix_eq_laplace_after_setter", "cart2_matrix_eq_laplace_after_setter",
+    "cyl_matrix_eq_laplace_after_setter", "cart3_matrix_eq_laplace_after_setter",
     "parallel_schedule_independent", "kernel_schedule_independent", "chunked_schedule_independent",
     "runWrites_kernel_value", "out_route_eq", "ghost_route_order_irrelevant",
     "bernstein_schedule_independent", "runBodies_kernel", "schedule_dependent_if_out_is_read", "schedule_dependent_if_cells_shared",
@@ -57,7 +68,7 @@ ASSUMPTIONS = [
 ]
 TRUSTED_EXTRA = ["extractor E2 (Python ast walk over every nb.prange loop under pde/) establishes the kernel-shape hypothesis of the "
                  "schedule theorem statically; the schedule leg re-establishes it dynamically on logged element accesses"]
-MIN_LEGS = {"routes": 100, "threads": 9, "schedule": 15, "complex": 20}
+MIN_LEGS = {"routes": 100, "threads": 9, "schedule": 15, "complex": 20, "setter": 60, "alias": 40}
 
 CLS = c01.DIM and {"UnitGrid": "cart", "CartesianGrid": "cart", "PolarSymGrid": "polar", "SphericalSymGrid": "sph", "CylindricalSymGrid": "cyl"}
 OPS_BY_RANK = {0: ["laplace", "gradient", "gradient_squared"], 1: ["divergence", "vector_gradient", "vector_laplace"], 2: ["tensor_divergence"]}
@@ -802,7 +813,12 @@ def run(ctx):
             order = sorted(range(len(ws)), key=lambda k: ws[k][0])
             sched_reqs[(fam, name)] = batch.add("c03.writes", {"size": rec["size"], "cells": [w[0] for w in ws],
                                                                "vals": [q(w[1]) for w in ws], "order": order})
+    # ---- setter leg: requests (model of the *compiled* setter: sequential loops on the live array, chain) -------------
+    srng = ctx.sub_rng("setter")
+    scases = [c02.gen_case(srng, lambda *a, **k: None, extended=True) for _ in range(ctx.budget(140, 1500))]
+    sreqs = [batch.add("c03.seqghost", c02.model_request(c)) for c in scases]
     answers = batch.run()
+    setter_leg(ctx, srng, scases, sreqs, answers)
     for fam, rr in zip(FAMILIES, res_sched):
         if isinstance(rr, str):
             continue
@@ -911,6 +927,229 @@ def run(ctx):
     ctx.extra["parallel_kernels_executed_with_16_threads"] = par_kernels
     ctx.extra["prange_operator_variants_in_thread_leg"] = n_fam_loops
 
+    # ---- `out=` aliasing contract --------------------------------------------------------------------------
+    alias_leg(ctx)
+
+
+# ------------------------------------------------------------------------------------------
+# setter leg: compiled ghost-cell setter vs its own model (Model/SetterSeq.lean) vs the interpreted setter
+def judge_setter(case, rs, model, div0):
+    """-> (outcome for the histogram, broken-tie note or None, monitor failure (observed, what) or None)"""
+    if isinstance(rs, str) or "error" in rs:
+        return "specification rejected (judged by C02)", None, None
+    interp, comp = rs.get("interpreted"), rs.get("numba")
+    if isinstance(interp, str) or isinstance(comp, str) or interp is None or comp is None:
+        return "a setter raised (error behaviour is judged by C02)", None, None
+    scale = max([1.0] + [abs(float(x)) for x in np.asarray(case["data"], dtype=float).ravel() if np.isfinite(x)])
+    tie = None
+    if model is not None:
+        k = c02.compare_arrays(model, comp, scale, div0)
+        if k is not None:
+            tie = f"entry {k}: model of the compiled setter {float(model[k]) if k >= 0 else 'shape'} != real compiled setter " \
+                  f"{float(np.asarray(comp, dtype=float).ravel()[k]) if k >= 0 else np.asarray(comp).shape}"
+    exp = np.array(interp, dtype=float).copy()
+    flat = exp.reshape(-1)
+    for k in div0:
+        flat[k] = np.nan  # the expression divides by zero there: any non-finite entry
+    fail = None
+    if not c02.agree(comp, exp, scale):
+        a, b = np.asarray(comp, dtype=float).ravel(), np.asarray(interp, dtype=float).ravel()
+        with np.errstate(invalid="ignore"):
+            d = np.abs(a - b) if a.shape == b.shape else np.array([np.inf])
+        i_ = int(np.argmax(np.where(np.isfinite(d), d, np.inf)))
+        fail = ({"index": i_, "compiled": float(a[i_]) if a.shape == b.shape else list(a.shape),
+                 "interpreted": float(b[i_]) if a.shape == b.shape else list(b.shape)},
+                "compiled ghost-cell setter and interpreted set_ghost_cells give different padded arrays")
+    return "compared", tie, fail
+
+
+def setter_leg(ctx, srng, scases, sreqs, answers):
+    res_s = run_many("harness.c02", "real_ghost", [(c, True, False) for c in scases], env={"NUMBA_DISABLE_JIT": "1"}, procs=16)
+    jit_ids = sorted(srng.sample(range(len(scases)), min(ctx.budget(8, 80), len(scases))))
+    res_j = dict(zip(jit_ids, run_many("harness.c02", "real_ghost", [(scases[i], True, False) for i in jit_ids],
+                                       env={"NUMBA_DISABLE_JIT": "0"}, procs=8)))
+    for ci, (c, ri) in enumerate(zip(scases, sreqs)):
+        key = c02.case_key(c)
+        st, val = answers[ri]
+        model, div0 = None, ()
+        if st == "ok":
+            model, div0 = [unq(x) for x in val["a"]], tuple(val["div0"])
+            ctx.hist("setter-stores", str(min(int(val["stores"]), 512).bit_length()))
+        else:
+            ctx.disagree("setter", key, f"model error {val}", None)
+        for mode, rs in (("source", res_s[ci]), ("jit", res_j.get(ci))):
+            if rs is None:
+                continue
+            outcome, tie, fail = judge_setter(c, rs, model, div0)
+            ctx.hist("setter-outcome", f"{mode}: {outcome}")
+            if outcome != "compared":
+                continue
+            ctx.count(dict(key, mode=mode), nontrivial=len(set(key["data"])) > 2, leg="setter")
+            ctx.hist("setter-grid", f"{c['grid']['cls']}/{len(c['grid']['shape'])}d/rank{c['rank']}")
+            ctx.impl_traces += 1
+            ctx.monitor_evals += 1
+            rec = dict(key, mode=mode, packed=c02.pack(c))
+            if tie:
+                ctx.disagree("setter", rec, "BC.compiledSetterLog (sequential loops on the live array, chain)",
+                             "make_ghost_cell_setter of the numba backend", tie)
+            if fail:
+                ctx.monitor_fail("setter", rec, fail[0], "compiled setter = interpreted setter", fail[1],
+                                 key={"route": f"numba-setter({mode})", "symptom": "differs-from-interpreted-setter"})
+
+
+# ------------------------------------------------------------------------------------------
+# alias leg: the `out=` contract incl. `out` = the input itself (memory model Model/OutAlias.lean)
+ALIAS_WITNESS = {"bounds": [[0.0, 6.0]], "shape": [6], "data": [0.0, 1.0, 4.0, 9.0, 16.0, 25.0], "spec": {"value": 1.0}, "op": "laplace"}
+
+
+def gen_alias_case(rng):
+    nd = 1 if rng.random() < 0.7 else 2
+    shape = [rng.randint(2, 7) for _ in range(nd)]
+    bounds = []
+    for n_ in shape:
+        lo = rng.choice([-2.0, 0.0, 0.5])
+        bounds.append([lo, lo + n_ * rng.choice([0.25, 0.5, 1.0, 2.0])])
+    kind = rng.choice(["value", "derivative", "curvature", "mixed"])
+    v = rng.randint(-8, 8) / 4
+    spec = {"type": "mixed", "value": rng.randint(0, 6) / 2, "const": v} if kind == "mixed" else {kind: v}
+    n_tot = int(np.prod(shape))
+    return {"bounds": bounds, "shape": shape, "data": [float(rng.randint(-9, 9)) for _ in range(n_tot)], "spec": spec,
+            "op": rng.choice(["laplace", "laplace", "gradient_squared"])}
+
+
+def alias_case(case):
+    """every way of calling the operator with an `out` argument, incl. `out` = the input array / the field itself;
+    returns dict name -> array or 'EXC ...'"""
+    import logging
+    import warnings
+    import pde
+    from pde import get_backend
+
+    logging.getLogger("pde").setLevel(logging.ERROR)
+    warnings.simplefilter("ignore")
+    grid = pde.CartesianGrid(case["bounds"], case["shape"])
+    shape = tuple(case["shape"])
+    data = np.array(case["data"], dtype=float).reshape(shape)
+    bc, opn = case["spec"], case["op"]
+    out = {}
+    f = pde.ScalarField(grid, data.copy())
+    out["ref"] = np.array(getattr(f, opn)(bc).data, dtype=float)
+    out["padded"] = np.array(f._data_full, dtype=float)  # the call set the ghost cells in the field's own buffer
+
+    def attempt(name, fn):
+        try:
+            out[name] = np.array(fn(), dtype=float)
+        except Exception as e:  # noqa
+            out[name] = f"EXC {type(e).__name__}: {e}"[:300]
+
+    def field_sep():
+        g, o = pde.ScalarField(grid, data.copy()), pde.ScalarField(grid, np.full(shape, np.nan))
+        r = getattr(g, opn)(bc, out=o)
+        assert r is o, "returned object is not `out`"
+        return o.data
+
+    def field_alias(method):
+        def run_():
+            g = pde.ScalarField(grid, data.copy())
+            r = getattr(g, opn)(bc, out=g) if method else g.apply_operator(opn, bc, out=g)
+            assert r is g, "returned object is not `out`"
+            return g.data.copy()
+        return run_
+
+    attempt("field.method(out=other field)", field_sep)
+    attempt("field.method(out=the field itself)", field_alias(True))
+    attempt("field.apply_operator(out=the field itself)", field_alias(False))
+    for bname in ("numpy", "numba", "scipy"):
+        try:
+            if opn not in get_backend(bname).get_registered_operators(grid):
+                continue
+            b_op = grid.make_operator(opn, bc=bc, backend=bname)
+        except Exception as e:  # noqa
+            out[f"_skip make_operator({bname})"] = f"EXC {type(e).__name__}: {e}"[:300]  # e.g. scipy: uniform discretization only
+            continue
+
+        def w_sep(b_op=b_op):
+            o = np.full(shape, np.nan)
+            r = b_op(data.copy(), out=o)
+            assert r is o, "returned array is not `out`"
+            return o
+
+        def w_alias(b_op=b_op):
+            a = data.copy()
+            r = b_op(a, out=a)
+            assert r is a, "returned array is not `out`"
+            return a
+
+        attempt(f"make_operator({bname})(arr)", lambda b_op=b_op: b_op(data.copy()))
+        attempt(f"make_operator({bname})(arr,out=other)", w_sep)
+        attempt(f"make_operator({bname})(arr,out=arr)", w_alias)
+    return out
+
+
+def judge_alias(case, rr):
+    """monitor failures [(route, observed, key)]: every `out` variant must reproduce the result without `out`"""
+    fails = []
+    if isinstance(rr, str) or isinstance(rr.get("ref"), str):
+        return [("worker", str(rr)[-300:], {"route": "alias-worker", "symptom": "raised"})]
+    ref = rr["ref"]
+    scale = 1.0 + float(np.max(np.abs(ref))) if np.isfinite(ref).all() else 1.0
+    for name, arr in rr.items():
+        if name in ("ref", "padded") or name.startswith("_skip"):
+            continue
+        if isinstance(arr, str):
+            fails.append((name, arr, {"route": name, "symptom": "raised-with-out"}))
+        elif arr.shape != ref.shape or arr_far(arr, ref, 1e-10 * scale):
+            fails.append((name, {"with out": [float(x) for x in arr.ravel()], "without out": [float(x) for x in ref.ravel()]},
+                          {"route": name, "symptom": "result-with-out-differs"}))
+    return fails
+
+
+def alias_leg(ctx):
+    from harness.common.lean import LeanBatch
+
+    arng = ctx.sub_rng("alias")
+    acases = [dict(ALIAS_WITNESS)] + [gen_alias_case(arng) for _ in range(ctx.budget(60, 600))]
+    res = run_many("harness.c03", "alias_case", acases, env={"NUMBA_DISABLE_JIT": "1"}, procs=12)
+    jit_ids = [0] + sorted(arng.sample(range(1, len(acases)), min(ctx.budget(4, 40), len(acases) - 1)))
+    res_j = dict(zip(jit_ids, run_many("harness.c03", "alias_case", [acases[i] for i in jit_ids], env={"NUMBA_DISABLE_JIT": "0"}, procs=6)))
+    batch = LeanBatch(ctx.workdir)
+    mreq = {}
+    for ci, (c, rr) in enumerate(zip(acases, res)):
+        if len(c["shape"]) == 1 and c["op"] == "laplace" and isinstance(rr, dict) and not isinstance(rr.get("padded"), str):
+            dx = Fraction(c["bounds"][0][1] - c["bounds"][0][0]) / c["shape"][0]
+            mreq[ci] = batch.add("c03.alias", {"padded": [q(float(x)) for x in rr["padded"]], "scale": q(1 / (dx * dx)), "junk": q(777.0)})
+    answers = batch.run() if mreq else []
+    for ci, c in enumerate(acases):
+        for mode, rr in (("source", res[ci]), ("jit", res_j.get(ci))):
+            if rr is None:
+                continue
+            rec = dict(c, mode=mode)
+            ctx.count(rec, nontrivial=len(set(c["data"])) > 1, leg="alias")
+            ctx.hist("alias", f"{len(c['shape'])}d:{c['op']}:{next(iter(c['spec']))}")
+            ctx.impl_traces += 1
+            ctx.monitor_evals += 1
+            for route, observed, fkey in judge_alias(c, rr):
+                ctx.monitor_fail("alias", dict(rec, route=route), observed, "the result does not depend on `out` (absent, separate, or the input itself)",
+                                 f"route {route}: evaluation with `out` differs from evaluation without", key=fkey)
+            if mode == "source" and ci in mreq and isinstance(rr, dict):
+                st, val = answers[mreq[ci]]
+                if st != "ok":
+                    ctx.disagree("alias", rec, f"model error {val}", None)
+                    continue
+                pairs = [("wrapper_aliased", "make_operator(numba)(arr,out=arr)"), ("wrapper_fresh", "make_operator(numba)(arr,out=other)"),
+                         ("field_separate", "field.method(out=other field)")]
+                for mk, rk in pairs:
+                    real = rr.get(rk)
+                    model = np.array([float(unq(x)) for x in val[mk]])
+                    if isinstance(real, str) or real is None or arr_far(model, real, 1e-10 * (1 + float(np.max(np.abs(model))))):
+                        ctx.disagree("alias", dict(rec, route=rk), [float(x) for x in model], real if isinstance(real, (str, type(None))) else [float(x) for x in real],
+                                     f"memory model OutAlias.{mk} and the real route differ")
+                real_a = rr.get("field.method(out=the field itself)")
+                model_a = np.array([float(unq(x)) for x in val["field_aliased"]])
+                same = (not isinstance(real_a, str)) and real_a is not None and not arr_far(model_a, real_a, 1e-10 * (1 + float(np.max(np.abs(model_a)))))
+                ctx.hist("alias-inplace-model", "OutAlias.fieldRoute with out = self reproduces the real numbers" if same
+                         else "real code no longer computes in place for out = self (model of the deviation is stale)")
+
 
 # ------------------------------------------------------------------------------------------
 def replay(ctx, rep):
@@ -925,6 +1164,20 @@ def replay(ctx, rep):
         """failures that reproduce the recorded symptom (all failures if the file has no key)"""
         return [k for k in failkeys if not rkey or all(k.get(a) == b for a, b in rkey.items())]
 
+    if leg == "alias" and "shape" in c:
+        case = {k: c[k] for k in ("bounds", "shape", "data", "spec", "op")}
+        rr = run_many("harness.c03", "alias_case", [case], env={"NUMBA_DISABLE_JIT": "0" if c.get("mode") == "jit" else "1"}, procs=1)[0]
+        fails = judge_alias(case, rr)
+        for f in fails:
+            print("alias leg:", f[0], f[1])
+        return not still([f[2] for f in fails])
+    if leg == "setter" and "packed" in c:
+        case = c02.unpack(c["packed"])
+        jit = c.get("mode") == "jit"
+        rs = run_many("harness.c02", "real_ghost", [(case, True, False)], env={"NUMBA_DISABLE_JIT": "0" if jit else "1"}, procs=1)[0]
+        outcome, _tie, fail = judge_setter(case, rs, None, ())
+        print("setter leg:", outcome, fail)
+        return outcome == "compared" and fail is None
     if leg == "threads" and "family" in c:
         fam, seed, nt = c["family"], c["seed"], int(c["threads"])
         nts = sorted({1, nt})
